@@ -14,29 +14,6 @@ import (
 	"testing"
 )
 
-func verifEnvInt(name string, def int64) int64 {
-	if v := os.Getenv(name); v != "" {
-		if n, err := strconv.ParseInt(v, 10, 64); err == nil {
-			return n
-		}
-	}
-	return def
-}
-
-func verifOut(t *testing.T, def string) (*bufio.Writer, func()) {
-	t.Helper()
-	path := os.Getenv("VERIF_OUT")
-	if path == "" {
-		path = def
-	}
-	f, err := os.Create(path)
-	if err != nil {
-		t.Fatal(err)
-	}
-	w := bufio.NewWriterSize(f, 1<<20)
-	return w, func() { w.Flush(); f.Close() }
-}
-
 func rpqDump(w *bufio.Writer, q *receivePayloadQueue) {
 	fmt.Fprintf(w, "dump %d %d %d %d %d", q.cumulativeTSN, q.tailTSN, q.chunkSize, q.maxTSNOffset, len(q.tsnBitmask))
 	idx := []int{}
@@ -55,13 +32,6 @@ func rpqDump(w *bufio.Writer, q *receivePayloadQueue) {
 		fmt.Fprintf(w, " %d", d)
 	}
 	fmt.Fprintln(w)
-}
-
-func b2i(b bool) int {
-	if b {
-		return 1
-	}
-	return 0
 }
 
 // rpqRunCase runs one operation sequence given as text lines ("push 5", "pop 1", ...), used both
